@@ -169,7 +169,13 @@ class FakeSemaphore:
         self.holder = None
 
     def acquire(self, blocking=True, timeout=None):
-        self.sched.yield_point("sem.acquire", pred=lambda: self.count > 0)
+        if not blocking:
+            # a try-lock: one scheduling point, then it either gets the semaphore or reports False
+            self.sched.yield_point("sem.try_acquire")
+            if self.count <= 0:
+                return False
+        else:
+            self.sched.yield_point("sem.acquire", pred=lambda: self.count > 0)
         self.count -= 1
         self.min_seen = min(self.min_seen, self.count)
         self.holder = current_task()
